@@ -108,6 +108,6 @@ Definition is_request (o : op) : bool := match o with PUB _ _ => false | _ => tr
 
 (* ---------- fault stream (outside the property's quantifier, judged on its clause "STOP closes all files"):
    after a STOP issued while the experiment-state file cannot be written, whatever the reply, no channel holds
-   a writer, no channel data file is open and nothing is stored any more ---------- *)
+   a writer, no channel data file is open, nothing is stored any more, and the reported state says so (not active) ---------- *)
 Definition fault_stop_ok (f : faultobs) : bool :=
-  forallb no_writer (fo_writers f) && (fo_open f =? 0) && negb (fo_stored f).
+  forallb no_writer (fo_writers f) && (fo_open f =? 0) && negb (fo_stored f) && negb (fo_active f).
